@@ -280,6 +280,52 @@ def dual_cases(rng, tier):
     return out
 
 
+EXCLUSIVES = ['Ldrex', 'Ldrexb', 'Ldrexh', 'Ldrexd', 'Strex', 'Strexb', 'Strexh', 'Strexd']
+
+
+def excl_cases(rng, tier):
+    """the exclusive loads and stores on flat memory (no theorem): LDREX* load through MemA; the emulator's local monitor is a mock
+    that never passes, so STREX* report status 1 and store nothing — after the alignment check of ExclusiveMonitorsPass, which
+    is the alignment fault MemA itself would raise for that size"""
+    t = statelib.load_index(C.GEN)['tables']
+    out = []
+    per = 20 if tier == 'quick' else 800
+    for cls in EXCLUSIVES:
+        size = {'b': 1, 'h': 2, 'd': 8}.get(cls[-1], 4)
+        for _ in range(per):
+            thumb = rng.random() < 0.4
+            cfgd, st, secure = mk_state(rng, t, thumb)
+            st = dict(st)
+            st['cfg'] = dict(st['cfg'], arch_version=7)
+            cfgd['arch_version'] = 7
+            n, tt, d = rng.choice([0, 1, 2, 3]), rng.choice([4, 6, 10]), rng.choice([8, 9])
+            t2 = tt + 1
+            imm32 = rng.choice([0, 4, 8, 0x3FC]) if cls in ('Ldrex', 'Strex') else 0
+            base = rng.choice([0x1000, 0x1008, 0x1010, 0x1044, 0x10F8, 0x1004, 0x1002, 0x1001, 0x100C])
+            set_reg(st, t, n, base)
+            set_reg(st, t, tt, rng.getrandbits(32))
+            set_reg(st, t, t2, rng.getrandbits(32))
+            cfg = statelib.coq_config(cfgd, t)
+            m = statelib.coq_machine(st)
+            a = f'(add32 (rget {m} {n}) {imm32})'
+            if cls.startswith('Ldr'):
+                fields = {'Ldrex': [0, imm32, tt, n], 'Ldrexd': [0, tt, t2, n]}.get(cls, [0, tt, n])
+                if size == 8:
+                    body = (f'(if bit (cpsr_of s1) 9 =? 1 then rset (rset s1 {tt} (bits dd 63 32)) {t2} (bits dd 31 0) '
+                            f'else rset (rset s1 {tt} (bits dd 31 0)) {t2} (bits dd 63 32))')
+                else:
+                    body = f'(rset s1 {tt} dd)'
+                spec = f"(match MemA_get_flat 7 {m} {a} {size} with Ok dd s1 => Ok tt {body} | Exc e s' => Exc e s' end)"
+            else:
+                fields = {'Strex': [0, imm32, tt, d, n], 'Strexd': [0, tt, t2, d, n]}.get(cls, [0, tt, d, n])
+                spec = f"(match MemA_set_flat 7 {m} {a} {size} 0 with Ok _ _ => Ok tt (rset {m} {d} 1) | Exc e s' => Exc e s' end)"
+            args = ' '.join(str(x) for x in fields)
+            out.append({'impl': {'kind': 'exec', 'state': st, 'module': snake(cls), 'cls': cls, 'fields': fields},
+                        'model': f'(enc_out enc_machine enc_unit ({cls}_execute {cfg} {args} {m}))',
+                        'spec': f'(enc_out enc_machine enc_unit {spec})', 'label': cls, 'nontrivial': True})
+    return out
+
+
 def extra_and_literal_cases(rng, tier):
     return extra_cases(rng, tier) + literal_cases(rng, tier)
 
@@ -294,6 +340,7 @@ def units():
                  ['Proofs/LSProofs2.v', 'Proofs/LSProofs3.v', 'Proofs/LSProofs4.v'],
                  ['opcodes.abstract_opcodes.%s.%s.execute' % (snake(cls), cls) for cls in [c for (c, _, _, _) in EXTRA] + [c for c, _ in LITERALS]],
                  extra_and_literal_cases, IMPORTS, SPEC_IMPORTS + '\nFrom ArmV Require Import Spec.LoadStoreUnpriv.'),
+            Unit('exclusive', [], [], [], excl_cases, IMPORTS, SPEC_IMPORTS + '\nFrom ArmV Require Import Spec.LoadStoreUnpriv.'),
             Unit('dual', ['C02_' + c for c in DUALS], ['Proofs/LSProofs5.v'],
                  ['opcodes.abstract_opcodes.%s.%s.execute' % (snake(c), c) for c in DUALS], dual_cases, IMPORTS,
                  SPEC_IMPORTS + '\nFrom ArmV Require Import Spec.LoadStoreUnpriv.')]
